@@ -172,6 +172,12 @@ def run_impl(c):
             return _run_props(c)
         if c["k"] == "tss":
             return _run_tss(c)
+        if c["k"] == "propsf":
+            return _run_props_factory(c)
+        if c["k"] == "sigview":
+            return _run_sigview(c)
+        if c["k"] == "fresh":
+            return _run_fresh(c)
         src, warr = _mk_source(c)
         try:
             built = vf.try_impl(lambda: _construct(c, src))
@@ -252,6 +258,97 @@ def _run_props(c):
     return {"observed": bool(seen and seen2), "one_way": bool(seen != seen2)}
 
 
+def _run_props_factory(c):
+    """factories have no copy_extended_properties flag: every object they build holds its own copy of the mapping"""
+    from nitypes.waveform import AnalogWaveform, ComplexWaveform, DigitalWaveform, ExtendedPropertyDictionary, Spectrum
+    from nitypes.xy_data import XYData
+    import numpy as np
+    arg = {"a": "1"}
+    if c["arg"] == "epd":
+        arg = ExtendedPropertyDictionary(arg)
+    kw = {"extended_properties": arg}
+    f = c["f"]
+    K = {"A": AnalogWaveform, "C": ComplexWaveform, "S": Spectrum}
+    if f[0] in K:
+        a = np.zeros((2, 3), np.float64 if f[0] != "C" else np.complex128)
+        objs = [K[f[0]].from_array_1d(a[0], **kw)] if f[1] == "1d" else list(K[f[0]].from_array_2d(a, **kw))
+    elif f[0] == "D":
+        if f[1] == "lines":
+            objs = [DigitalWaveform.from_lines(np.zeros((3, 2), np.uint8), **kw)]
+        elif f[1] == "port":
+            objs = [DigitalWaveform.from_port(np.zeros(3, np.uint8), **kw)]
+        else:
+            objs = list(DigitalWaveform.from_ports(np.zeros((2, 3), np.uint8), **kw))
+    else:
+        objs = [XYData.from_arrays_1d(np.zeros(2), np.zeros(2), **kw)]
+    arg["late"] = "x"
+    seen = any("late" in o.extended_properties for o in objs)
+    objs[0].extended_properties["obj-side"] = "y"
+    seen2 = "obj-side" in arg
+    siblings = any("obj-side" in o.extended_properties for o in objs[1:]) or len({id(o.extended_properties) for o in objs}) != len(objs)
+    intact = all(o.extended_properties.get("a") == "1" for o in objs) and objs[0].extended_properties.get("obj-side") == "y"
+    return {"observed": bool(seen or seen2 or siblings or not intact), "one_way": False}
+
+
+def _run_sigview(c):
+    """DigitalWaveformSignal.data read again after the waveform's buffer or window was replaced views the new one"""
+    from nitypes.waveform import DigitalWaveform
+    import numpy as np
+    n, ncol = c["n"], c["ncol"]
+    first = (np.arange(n * ncol, dtype=np.uint8) % 2).reshape(n, ncol)
+    second = ((np.arange(n * ncol, dtype=np.uint8) + 1) % 2).reshape(n, ncol) + 2
+    if c["how"] == "window":
+        buf = np.concatenate([np.full((2, ncol), 9, np.uint8), first])
+        w = DigitalWaveform.from_lines(buf, copy=True, start_index=2, sample_count=n)
+    else:
+        w = DigitalWaveform.from_lines(first, copy=c["first_copy"])
+    held = [w.signals[i] for i in range(ncol)]
+    for s_ in held:
+        s_.data  # first access
+    w.load_data(second, copy=(c["how"] != "borrow"))
+    ok = True
+    for i, s_ in enumerate(held):
+        d = s_.data
+        col = s_.column_index
+        ok = ok and d.shape == (n,) and d.tolist() == w.data[:, col].tolist() == second[:, col].tolist()
+        # with copy=True the samples are written into the buffer the waveform already has: that is the caller's first
+        # array when it was adopted; otherwise the first array is out of the picture
+        left_first = c["how"] == "borrow" or (c["how"] == "copy" and c["first_copy"]) or c["how"] == "window"
+        ok = ok and bool(np.shares_memory(d, w._data)) and (not left_first or not np.shares_memory(d, first))
+        d[0] = 7
+        ok = ok and int(w.data[0, col]) == 7 and (c["how"] != "borrow" or int(second[0, col]) == 7)
+        ok = ok and (not left_first or 7 not in first.tolist()[0])
+    return {"observed": bool(ok), "one_way": False}
+
+
+def _run_fresh(c):
+    """from_port / from_ports data is freshly allocated: nothing is shared with the port array, and the waveform owns it
+    (it can grow); the same for a waveform rebuilt by pickle, whatever the protocol"""
+    from nitypes.waveform import DigitalWaveform
+    import numpy as np, pickle
+    port = np.array([1, 2, 3, 250], np.uint8 if c["bits"] == 8 else np.uint16)
+    kw = {} if c["mask"] is None else {"mask": c["mask"]}
+    if c.get("bool"):
+        kw["dtype"] = np.bool_
+    if c["f"] == "port":
+        w = DigitalWaveform.from_port(port, **kw)
+    elif c["f"] == "ports":
+        w = DigitalWaveform.from_ports(np.stack([port, port]), None if c["mask"] is None else [c["mask"], c["mask"]],
+                                       **({"dtype": np.bool_} if c.get("bool") else {}))[c.get("row", 0)]
+    else:
+        w = pickle.loads(pickle.dumps(DigitalWaveform.from_lines(np.zeros((4, 2), np.uint8)), c["proto"]))
+    before = w.data.tolist()
+    ok = not np.shares_memory(w._data, port)
+    try:
+        w.capacity = w.capacity + 3
+        ok = ok and w.data.tolist() == before
+        w.append(np.ones((5, w.signal_count), w.dtype))
+        ok = ok and w.data.tolist()[:len(before)] == before and w.sample_count == len(before) + 5
+    except ValueError:
+        ok = False  # "cannot resize this array": the waveform does not own what it was given
+    return {"observed": bool(ok), "one_way": False}
+
+
 def _run_tss(c):
     import datetime as dt
     from nitypes.waveform import Timing
@@ -284,9 +381,11 @@ PATHS = {"from_array_1d": "PFrom1d", "from_lines": "PLines", "ctor": "PCtor", "f
 
 
 def to_coq(c, r):
-    if c["k"] in ("props", "tss"):
+    if c["k"] in ("props", "tss", "propsf", "sigview", "fresh"):
         if c["k"] == "props":
             expected = c["arg"] == "epd" and c["flag"] is False
+        elif c["k"] in ("sigview", "fresh"):
+            expected = True
         else:
             expected = False
         return "AFlag %s %s" % (vf.boolc(expected), vf.boolc(r["observed"] or r["one_way"] and not expected))
@@ -312,7 +411,7 @@ def to_coq(c, r):
 
 def sig(c, r):
     if c["k"] != "hist":
-        return "%s|%s|%s|%s" % (c["k"], c.get("cls"), c.get("arg"), c.get("flag")), True
+        return "%s|%s|%s|%s|%s|%s" % (c["k"], c.get("cls"), c.get("arg"), c.get("flag"), c.get("f"), c.get("how")), True
     ops = "".join(sorted({st["op"][0][0] + st["op"][0][1] for st in r.get("steps", [])}))
     out = r["res"].get("exc", "shares" if r["res"].get("ok") else "isolated")
     return "%s|%s|%s|%s|copy%d|cast%d|%s|%s" % (c["cls"], c["path"], c["kind"], "2d" if c["two_d"] else "1d", c["copy"], c["cast"], out, ops), True
@@ -320,7 +419,7 @@ def sig(c, r):
 
 def finding_key(c, r):
     if c["k"] != "hist":
-        return "%s|%s|%s" % (c["k"], c.get("cls"), c.get("arg"))
+        return "%s|%s|%s|%s|%s" % (c["k"], c.get("cls"), c.get("arg"), c.get("f"), c.get("how"))
     return "%s|%s|%s|copy%d|cast%d" % (c["cls"], c["path"], c["kind"], c["copy"], c["cast"])
 
 
@@ -345,6 +444,22 @@ def gen_cases(rng, tier):
     for arg in ("list", "tuple"):
         for read in ("get", "prop"):
             cases.append({"k": "tss", "arg": arg, "read": read})
+    for f in (["A", "1d"], ["A", "2d"], ["C", "1d"], ["C", "2d"], ["S", "1d"], ["S", "2d"], ["D", "lines"], ["D", "port"],
+              ["D", "ports"], ["XY", "1d"]):
+        for arg in ("dict", "epd"):
+            cases.append({"k": "propsf", "f": f, "arg": arg})
+    for how in ("borrow", "copy", "window"):
+        for n in (1, 3):
+            for ncol in (1, 2):
+                for first_copy in (False, True):
+                    cases.append({"k": "sigview", "how": how, "n": n, "ncol": ncol, "first_copy": first_copy})
+    for bits in (8, 16):
+        for mask in (None, 0x3, 0x5, 0):
+            for b in (False, True):
+                cases.append({"k": "fresh", "f": "port", "bits": bits, "mask": mask, "bool": b})
+                cases.append({"k": "fresh", "f": "ports", "bits": bits, "mask": mask, "bool": b, "row": 1})
+    for proto in (2, 3, 4, 5):
+        cases.append({"k": "fresh", "f": "pickle", "proto": proto, "bits": 8, "mask": None})
     combos = []
     for cls in ("A", "C", "S"):
         combos += [(cls, "from_array_1d", False), (cls, "ctor", False), (cls, "load", False)]
